@@ -38,7 +38,7 @@ K  := "p" | (call mk "p") | (call log "q")
 P  := @0 (prog (var n 0) SL)
 SL := @0 S | @0 (@ S SL)
 S  := (expr N) | (var c N) | (empty) | (block SL) | (block) | (if C S) | (if C S S) | (label LB S) | (break) | (break LB) | (continue) | (continue LB)
-    | (dowhile S false) | (while (< (post++ n) 2) S) | (for (let i 0) (< i 2) (post++ i) S) | (forof (var x) (arr 1 2) S) | (forin (var k) (obj (prop p 1)) S)
+    | (dowhile S false) | (while (< (post++ n) 2) S) | (while false S) | (for (var j 0) (< j 0) _ S) | (for (let i 0) (< i 2) (post++ i) S) | (forof (var x) (arr 1 2) S) | (forin (var k) (obj (prop p 1)) S)
     | (try (block SL) (catch e SL) _) | (try (block SL) _ (finally SL)) | (try (block SL) (catch e SL) (finally SL))
     | (switch N (case 1 SL) (default SL)) | (switch N (default SL) (case 2 SL)) | (throw N) | (let d N)
 N  := 1 | 2
@@ -91,7 +91,7 @@ SS  := @0 SX | @0 (@ SX SS)
 SX  := (expr (call log v)) | (expr (= c v)) | (expr (= (. this p) v))
 XX  := 1 | c | this | (. this p) | (call log 2) | (arrowe (params) this)
 US  := @0 UU | @0 (@ UU US)
-UU  := (expr (call log (. o g))) | (expr (= (. o g) 5)) | (expr (+= (. o g) 1)) | (expr (post++ (. o g))) | (expr (call log (call (. o m)))) | (expr (call log (. o p))) | (expr (call log (. o k)))
+UU  := (expr (call log (. o g))) | (expr (= (. o g) 5)) | (expr (+= (. o g) 1)) | (expr (*= (. o g) (call log 2))) | (expr (post++ (. o g))) | (expr (call log (call (. o m)))) | (expr (call log (. o p))) | (expr (call log (. o k)))
      | (expr (call log (typeof (. o g)))) | (expr (delete (. o g)))
 `},
 	{name: "destructuring", start: "P", quickN: 5, thorN: 7, pairN: 4, text: `
